@@ -279,9 +279,6 @@ func (g *genCtx) genParams(t *rapid.T, cur *App, max int) []Param {
 		}
 		used[nm] = true
 		e := g.genTExpr(t, cur, true)
-		if e.Wrap == "set" && e.Prim != "" { // KNOWN: set-of-primitive param panics at listener_impl.go:1509
-			e.Wrap = "seq"
-		}
 		ps = append(ps, Param{Name: nm, T: e})
 	}
 	return ps
@@ -536,7 +533,7 @@ func (g *genCtx) genRest(t *rapid.T, a *App, depth int, usedSeg map[string]bool,
 			e.Opt = rapid.Bool().Draw(t, "qopt")
 			ep.Query = append(ep.Query, Param{Name: qn, T: e})
 		}
-		ep.Stmts = stripNestedDocs(g.genStmts(t, a, 0, 4), 0)
+		ep.Stmts = g.genStmts(t, a, 0, 4)
 		n.Methods = append(n.Methods, ep)
 	}
 	if depth < 2 {
